@@ -19,7 +19,7 @@ LEVEL_NOTE = ('Trusted: list(uncached twin) as L (the property is stated relativ
 TECHNIQUE = ('deterministic simulation of cache-state histories against a list reference model')
 
 CLASSES = {
-    "hist": dict(quick=12000, thorough=300000, timeout=30),
+    "hist": dict(quick=20000, thorough=500000, timeout=30),
 }
 
 RULE = ("one evaluation = one generated history of queries / partial "
